@@ -403,6 +403,10 @@ impl TestRunner {
     pub fn verif_formatted_traces(&self) -> Vec<String> {
         self.formatted_traces.iter().map(|t| t.0.clone()).collect()
     }
+
+    pub fn verif_call_depth(&self) -> usize {
+        self.call_depth
+    }
 }
 
 fn format_trace(trace: &Trace, ctx: &CodegenContext) -> String {
